@@ -103,6 +103,7 @@ type Alt struct {
 	Clause  string `json:"clause"` // the Contract clause this alternative serves (echoed to the trace validator)
 	Channel []KV   `json:"channel"`
 	Perm    int    `json:"perm"` // 0 = canonical order of YAML / CLI entries, else seed of a permutation
+	EmptyCLI bool  `json:"emptycli"` // additionally pass every list option not delivered on the command line as an EMPTY parameter (types=, exclude_fields= ...): empty means "not given"
 	Msgs    []Msg  `json:"msgs"` // empty = the run's own messages
 }
 
